@@ -71,6 +71,85 @@ func (a *Analysis) RInitReceivers(only func(*ssa.Function) bool) []report.Obliga
 	return out
 }
 
+// RDefined: an exported method that returns its receiver has written the whole
+// receiver on every path to each site that returns it (so the result cannot be
+// the receiver's previous content).
+func (a *Analysis) RDefined() []report.Obligation {
+	var out []report.Obligation
+	recv := Root{Kind: KParam, Index: 0}
+	for _, f := range a.P.APIRoots() {
+		if f.Signature.Recv() == nil {
+			continue
+		}
+		fi := a.Info[f]
+		returnsRecv := false
+		for _, rs := range fi.Sum.Returns {
+			if len(rs.Results) > 0 {
+				for _, pv := range rs.Results[0] {
+					if pv.Loc.Root == recv && pv.Loc.Path == "" {
+						returnsRecv = true
+					}
+				}
+			}
+		}
+		if !returnsRecv {
+			continue
+		}
+		o := report.Obligation{Rule: "R-DEF", Key: "R-DEF/" + load.ShortName(f) + "/recv", Config: a.cfg(), Pos: a.fnPos(f), OK: true,
+			Detail: "every site that returns the receiver is reached only after the whole receiver has been written"}
+		for _, s := range a.flatSitesDef(f, 0) {
+			if s.returnsRecv && !s.defined {
+				o.OK = false
+				o.Pos = a.pos(s.instr)
+				o.Detail = "the receiver is returned at " + s.desc + " although some path to it leaves (part of) the receiver unwritten: the result is the receiver's previous content"
+			}
+		}
+		out = append(out, o)
+	}
+	return out
+}
+
+type defSite struct {
+	returnsRecv bool
+	defined     bool
+	desc        string
+	instr       ssa.Instruction
+}
+
+func (a *Analysis) flatSitesDef(f *ssa.Function, depth int) []defSite {
+	fi := a.Info[f]
+	recv := Root{Kind: KParam, Index: 0}
+	var out []defSite
+	for _, rs := range fi.Sum.Returns {
+		if rs.Forwarded != nil && depth < 8 && len(rs.Instr.Results) > 0 {
+			ex, _ := rs.Instr.Results[0].(*ssa.Extract)
+			call, _ := ex.Tuple.(*ssa.Call)
+			sameRecv := false
+			if call != nil {
+				for _, pv := range fi.operand(call.Common().Args[0]) {
+					if pv.Loc.Root == recv && pv.Loc.Path == "" {
+						sameRecv = true
+					}
+				}
+			}
+			for _, cs := range a.flatSitesDef(rs.Forwarded, depth+1) {
+				out = append(out, defSite{returnsRecv: cs.returnsRecv && sameRecv, defined: cs.defined || rs.RecvDefined, desc: a.pos(rs.Instr) + " → " + cs.desc, instr: rs.Instr})
+			}
+			continue
+		}
+		ds := defSite{defined: rs.RecvDefined, desc: a.pos(rs.Instr), instr: rs.Instr}
+		if len(rs.Results) > 0 {
+			for _, pv := range rs.Results[0] {
+				if pv.Loc.Root == recv && pv.Loc.Path == "" {
+					ds.returnsRecv = true
+				}
+			}
+		}
+		out = append(out, ds)
+	}
+	return out
+}
+
 // RInitLocals: every local object of a type whose zero value is not a valid
 // value is written before it is read (zero-constant stores are not writes).
 func (a *Analysis) RInitLocals(only func(*ssa.Function) bool) []report.Obligation {
@@ -255,6 +334,38 @@ func (a *Analysis) RReadOnly() []report.Obligation {
 		start := 0
 		if f.Signature.Recv() != nil {
 			start = 1
+			// a method that never returns its receiver uses it as an input only
+			// (Bytes, Equal, IsNegative, ExtendedCoordinates…): it must not write it
+			recv := Root{Kind: KParam, Index: 0}
+			returnsRecv := false
+			for _, rs := range fi.Sum.Returns {
+				if len(rs.Results) > 0 {
+					for _, pv := range rs.Results[0] {
+						if pv.Loc.Root == recv {
+							returnsRecv = true
+						}
+					}
+				}
+			}
+			if !returnsRecv && isPtrLike(f.Params[0].Type()) {
+				o := report.Obligation{Rule: "R-RO", Key: "R-RO/" + load.ShortName(f) + "/recv", Config: a.cfg(), Pos: a.fnPos(f), OK: true,
+					Detail: "the receiver is an input only (it is never the result) and is never written"}
+				var ws []string
+				for l := range fi.Sum.MayWrite {
+					if l.Root == recv {
+						ws = append(ws, fi.LocName(l))
+					}
+				}
+				sort.Strings(ws)
+				if len(ws) > 0 {
+					o.OK = false
+					if len(ws) > 5 {
+						ws = append(ws[:5], "…")
+					}
+					o.Detail = "the method does not return its receiver, so the receiver is a (possibly shared) input — but it is written: " + strings.Join(ws, ", ")
+				}
+				out = append(out, o)
+			}
 		}
 		for i := start; i < len(f.Params); i++ {
 			p := f.Params[i]
